@@ -688,12 +688,77 @@ def C03_full_symGrad : Prop :=
     symGrad out vs = .ok ((out.zip vs.flatten).map fun p =>
       (out.zip vs.flatten).map fun q => mul (const (1/2)) (add (D q.2 p.1) (D p.2 q.1)))
 
-/-- FULL STATEMENT, not proved: the batch-level `partial` of any order equals the row-level `partial`
-    (proved: first-order operators `gradB_eq`, `jacB_eq`, `divB_eq`, and second order for `laplacianB_eq`) -/
-def C03_full_partialB : Prop :=
-  ∀ (V : Type) [DecidableEq V] (n r : Nat) (ρB : BV V → ℝ) (out : List (Expr V)) (vs : List (VarT V)),
-    r < n → (∀ ρ : V → ℝ, ∀ o ∈ out, DefinedR ρ o) →
-    (partialB n out vs r).map (eval ρB) = (partialD out vs).map (eval (fun y => ρB (r, y)))
+/-! ### `partial` of any order on the whole batch -/
+
+/-- invariant of the `partial` loop on the whole batch: `du` (batch level) and `o` (row level) agree in value at
+    every row, everywhere, and all their denominators are non-zero everywhere -/
+def PartialInv (n : Nat) (du : Nat → List (Expr (BV V))) (o : List (Expr V)) : Prop :=
+  (∀ (ρB : BV V → ℝ) r, r < n → (du r).map (eval ρB) = o.map (eval (fun y => ρB (r, y)))) ∧
+  (∀ (ρB : BV V → ℝ) r, r < n → ∀ e ∈ du r, DefinedR ρB e) ∧
+  (∀ (ρ : V → ℝ), ∀ e ∈ o, DefinedR ρ e)
+
+theorem partialInv_init (n : Nat) (out : List (Expr V)) (hd : ∀ ρ : V → ℝ, ∀ o ∈ out, DefinedR ρ o) :
+    PartialInv n (fun r => out.map (atRow r)) out := by
+  refine ⟨?_, ?_, hd⟩
+  · intro ρB r _
+    simp only [List.map_map, Function.comp_def, atRow, eval_map]
+  · intro ρB r _ e he
+    rw [List.mem_map] at he
+    obtain ⟨o, ho, rfl⟩ := he
+    exact (defined_map _ ρB o).mpr (hd _ o ho)
+
+theorem partialInv_step (n : Nat) (du : Nat → List (Expr (BV V))) (o : List (Expr V)) (v : VarT V)
+    (h : PartialInv n du o) : PartialInv n (partialStepB n du v) (autograd (sumE o) v) := by
+  obtain ⟨hval, hdef, hdo⟩ := h
+  -- the differentiated batch scalar and its row-wise counterpart
+  have hT : ∀ ρB : BV V → ℝ, eval ρB (sumE ((List.range n).map fun r' => sumE (du r')))
+      = eval ρB (total n (sumE o)) := by
+    intro ρB
+    simp only [total, eval_sumE, List.map_map, Function.comp_def, atRow, eval_map]
+    congr 1
+    apply List.map_congr_left
+    intro r' hr'
+    rw [hval ρB r' (List.mem_range.mp hr')]
+  have hTd : ∀ ρB : BV V → ℝ, DefinedR ρB (sumE ((List.range n).map fun r' => sumE (du r'))) := by
+    intro ρB
+    apply defined_sumE
+    intro e he
+    rw [List.mem_map] at he
+    obtain ⟨r', hr', rfl⟩ := he
+    exact defined_sumE ρB _ (hdef ρB r' (List.mem_range.mp hr'))
+  have hod : ∀ ρ : V → ℝ, DefinedR ρ (sumE o) := fun ρ => defined_sumE ρ o (hdo ρ)
+  refine ⟨?_, ?_, ?_⟩
+  · intro ρB r hr
+    simp only [partialStepB, autograd, varAt, List.map_map, Function.comp_def]
+    apply List.map_congr_left
+    intro x _
+    rw [← sum_trick n r hr ρB x (sumE o)]
+    apply eval_D_congr
+    · exact hTd ρB
+    · exact defined_total n ρB (sumE o) (fun r' _ => hod _)
+    · intro t; exact hT _
+  · intro ρB r _ e he
+    simp only [partialStepB, autograd, List.mem_map] at he
+    obtain ⟨y, _, rfl⟩ := he
+    exact defined_D _ _ _ (hTd ρB)
+  · intro ρ e he
+    simp only [autograd, List.mem_map] at he
+    obtain ⟨y, _, rfl⟩ := he
+    exact defined_D _ _ _ (hod ρ)
+
+theorem partialB_fold (n : Nat) (vs : List (VarT V)) : ∀ (du : Nat → List (Expr (BV V))) (o : List (Expr V)),
+    PartialInv n du o → PartialInv n (vs.foldl (partialStepB n) du) (partialD o vs) := by
+  induction vs with
+  | nil => intro du o h; exact h
+  | cons v vs ih => intro du o h; exact ih _ _ (partialInv_step n du o v h)
+
+/-- the batch-level `partial` of any order, for any variable list, equals the row-level `partial`
+    (programs whose denominators vanish nowhere) -/
+theorem partialB_eq (n r : Nat) (hr : r < n) (ρB : BV V → ℝ) (out : List (Expr V)) (vs : List (VarT V))
+    (hd : ∀ ρ : V → ℝ, ∀ o ∈ out, DefinedR ρ o) :
+    (partialB n out vs r).map (eval ρB) = (partialD out vs).map (eval (fun y => ρB (r, y))) :=
+  (partialB_fold n vs _ _ (partialInv_init n out hd)).1 ρB r hr
+
 
 /-- **row independence** (laplacian) -/
 theorem laplacian_row_independent (n r : Nat) (hr : r < n) (ρB ρB' : BV V → ℝ) (u : Expr V) (vs : List (VarT V))
